@@ -49,6 +49,8 @@ class V:
     tag: "str | None" = None                # a label an axiom attached to the value (provenance); copied with the value, dropped by None
     item: "V | None" = None                 # an iterable built by a comprehension: what is known about each of its elements
     iflags: "frozenset[str]" = frozenset()  # a lazy iterable (generator expression): the events of producing one element
+    fn: "tuple | None" = None               # a callable held by a local: (name of the function it calls | id of the lambda / nested def in
+                                            # Walker.closures, bound positional values, bound (keyword, value) pairs) - functools.partial
 
     def tags(self) -> "set[str]":
         out = {self.tag} if self.tag is not None else set()
@@ -82,7 +84,8 @@ def join(a: V, b: V) -> V:
         elts = tuple(join(x, y) for x, y in zip(a.elts, b.elts))
     return V(a.truthy if a.truthy == b.truthy else None, a.none if a.none == b.none else None, a.err if a.err == b.err else None,
              a.const if a.const == b.const else None, elts, a.tag if a.tag == b.tag else None,
-             join(a.item, b.item) if a.item is not None and b.item is not None else None, a.iflags | b.iflags)
+             join(a.item, b.item) if a.item is not None and b.item is not None else None, a.iflags | b.iflags,
+             a.fn if a.fn == b.fn else None)
 
 
 def meet(a: V, b: V) -> "V | None":
@@ -99,7 +102,8 @@ def meet(a: V, b: V) -> "V | None":
         return NONE
     if a.const is not None and b.const is not None and a.const != b.const:
         return None
-    return V(out["truthy"], out["none"], out["err"], a.const or b.const, a.elts or b.elts, a.tag or b.tag, a.item or b.item, a.iflags | b.iflags)
+    return V(out["truthy"], out["none"], out["err"], a.const or b.const, a.elts or b.elts, a.tag or b.tag, a.item or b.item, a.iflags | b.iflags,
+             a.fn or b.fn)
 
 
 class St:
@@ -210,6 +214,7 @@ class Walker:
         self._taken: list[int] = []
         self._width: list[int] = []
         self._quiet = 0
+        self.closures: dict[int, ast.AST] = {}  # id -> lambda / nested def a local may hold (V.fn)
 
     # ---- entry -----------------------------------------------------------------------------------------------------------
     def run(self, env: "dict[str, V] | None" = None, flags: Iterable[str] = ()) -> list[Outcome]:
@@ -395,6 +400,9 @@ class Walker:
         if isinstance(e, (ast.DictComp, ast.Lambda)):
             for ch in ast.iter_child_nodes(e):
                 self._touch(ch, st)
+            if isinstance(e, ast.Lambda):
+                self.closures[id(e)] = e
+                return V(True, False, False, fn=(id(e), (), ()))
             return OBJECT
         if isinstance(e, ast.Await):
             return self.ev(e.value, st)
@@ -437,6 +445,21 @@ class Walker:
         last = name.rsplit(".", 1)[-1]
         plain = isinstance(c.func, ast.Name)
         simple = not any(isinstance(a, ast.Starred) for a in c.args) and None not in kwargs
+        held = st.env.get(c.func.id) if plain else None
+        if held is not None and held.fn is not None and simple:
+            # a local that holds a callable: the call reaches the function it wraps, with the bound arguments in front
+            target, pargs, pkw = held.fn
+            args = [*pargs, *args]
+            kwargs = {**dict(pkw), **kwargs}
+            if isinstance(target, int):
+                return self._call_closure(c, target, args, kwargs, st)
+            last = target
+        if last == "partial" and simple and c.args:
+            first = c.args[0]
+            if args[0].fn is not None:
+                return V(True, False, False, fn=(args[0].fn[0], args[0].fn[1] + tuple(args[1:]), args[0].fn[2] + tuple(kwargs.items())))
+            if isinstance(first, (ast.Name, ast.Attribute)) and dotted(first) and not (isinstance(first, ast.Name) and first.id in st.env):
+                return V(True, False, False, fn=(dotted(first).rsplit(".", 1)[-1], tuple(args[1:]), tuple(kwargs.items())))
         if plain and last == "isinstance" and len(args) == 2 and simple:
             ks = c.args[1].elts if isinstance(c.args[1], ast.Tuple) else [c.args[1]]
             names = [(dotted(k) or ast.unparse(k)).rsplit(".", 1)[-1] for k in ks]
@@ -479,6 +502,39 @@ class Walker:
             return self._inline_call(c, g, args, kwargs, st)
         return UNKNOWN
 
+    def callee(self, c: ast.Call, st: St) -> str:
+        """last component of the name of the function a call reaches: a local that holds functools.partial(f, ...) reads as f"""
+        if isinstance(c.func, ast.Name):
+            v = st.env.get(c.func.id)
+            if v is not None and v.fn is not None and isinstance(v.fn[0], str):
+                return v.fn[0]
+        return call_name(c).rsplit(".", 1)[-1]
+
+    def _call_closure(self, c: ast.Call, key: int, args: list[V], kwargs: "dict[str | None, V]", st: St) -> V:
+        """a call of a lambda / nested function held by a local: its body is followed in the caller's environment (free variables are
+        read when the call happens), parameters bound to the argument values"""
+        node = self.closures.get(key)
+        a = getattr(node, "args", None)
+        if node is None or a is None or a.vararg or a.kwarg:
+            return UNKNOWN
+        pos = [p.arg for p in [*a.posonlyargs, *a.args]]
+        bound = dict(zip(pos, args))
+        bound.update({k: v for k, v in kwargs.items() if k is not None})
+        if isinstance(node, ast.Lambda):
+            params = [*pos, *[p.arg for p in a.kwonlyargs]]
+            saved = {p: st.env.get(p) for p in params}
+            for p in params:
+                st.set(p, bound.get(p, UNKNOWN))
+            try:
+                return self.ev(node.body, st)
+            finally:
+                for p, v in saved.items():
+                    st.set(p, v if v is not None else UNKNOWN)
+        g = FuncInfo(name=node.name, qual=f"{self.f.qual}.<locals>.{node.name}", module=self.f.module, cls=None, node=node, parent=self.f)
+        if g.qual in self._stack or len(self._stack) > MAX_DEPTH:
+            return UNKNOWN
+        return self._inline_call(c, g, args, kwargs, st, base_env={k: v for k, v in st.env.items() if k not in _stores(node)})
+
     def _inlinable(self, c: ast.Call, g: FuncInfo) -> bool:
         if g.qual in self._stack or len(self._stack) > MAX_DEPTH or g.node.args.vararg or g.node.args.kwarg:
             return False
@@ -487,12 +543,15 @@ class Walker:
         # a method: called on some object / the class (the receiver is not followed)
         return isinstance(c.func, ast.Attribute) and g.cls is not None
 
-    def _inline_call(self, c: ast.Call, g: FuncInfo, args: list[V], kwargs: "dict[str | None, V]", st: St) -> V:
+    def _inline_call(self, c: ast.Call, g: FuncInfo, args: list[V], kwargs: "dict[str | None, V]", st: St,
+                     base_env: "dict[str, V] | None" = None) -> V:
         a = g.node.args
         pos = [p.arg for p in [*a.posonlyargs, *a.args]]
         if g.cls is not None and g.kind in ("method", "classmethod", "property") and pos:
             pos = pos[1:]                     # self / cls: bound to the receiver
-        env: dict[str, V] = {}
+        env: dict[str, V] = dict(base_env or {})
+        for p in [*a.posonlyargs, *a.args, *a.kwonlyargs]:
+            env.pop(p.arg, None)
         allpos = [*a.posonlyargs, *a.args]
         quiet = Walker(g, _stack=self._stack)
         for p, d in zip(allpos[len(allpos) - len(a.defaults):], a.defaults):
@@ -510,6 +569,7 @@ class Walker:
         if key not in self._cache:
             sub = Walker(g, axiom=self.axiom, raises=self.raises, event=self.event, inline=self._inline_all,
                          per_iteration=self.per_iteration, _stack=self._stack, _cache=self._cache)
+            sub.closures = self.closures
             self._cache[key] = sub.run(env, st.flags)
         outs: list[Outcome] = self._cache[key]
         alts: list[tuple[str, V, frozenset, str, ast.AST]] = []
@@ -787,7 +847,11 @@ class Walker:
             return out
         if isinstance(st, ast.Delete):
             return [s.kill(_stores(st))]
-        if isinstance(st, (ast.FunctionDef, ast.AsyncFunctionDef, ast.ClassDef)):
+        if isinstance(st, ast.FunctionDef):
+            self.closures[id(st)] = st
+            s.set(st.name, V(True, False, False, fn=(id(st), (), ())))
+            return [s]
+        if isinstance(st, (ast.AsyncFunctionDef, ast.ClassDef)):
             return [s.kill([st.name])]
         if isinstance(st, (ast.Import, ast.ImportFrom)):
             return [s.kill(_stores(st))]
